@@ -208,7 +208,15 @@ func mergePossibleTypes(sources []*ast.Schema, mergedTypes map[string]*ast.Defin
 func mergeRootObjects(aTypes, bTypes map[string]*ast.Definition, a, b *ast.Definition) (*ast.Definition, error) {
 	var fields ast.FieldList = a.Fields
 	for _, f := range b.Fields {
-		if common.IsBuiltinName(f.Name) || isNodeField(f) {
+		if common.IsBuiltinName(f.Name) {
+			continue
+		}
+
+		if isNodeField(f) {
+			// every service may expose node, keep a single copy
+			if fields.ForName(f.Name) == nil {
+				fields = append(fields, f)
+			}
 			continue
 		}
 
@@ -384,7 +392,7 @@ func isNullableTypeNamed(t *ast.Type, typename string) bool {
 }
 
 func isNodeField(f *ast.FieldDefinition) bool {
-	if common.IsNodeInterfaceName(f.Name) || len(f.Arguments) != 1 {
+	if f.Name != common.NodeFieldName || len(f.Arguments) != 1 {
 		return false
 	}
 	arg := f.Arguments[0]
